@@ -125,7 +125,7 @@ def work(shard, tier):
     for name in shard['modules']:
         mod = mods[name]
         rng = C.rng_for('C04', name)
-        nums = C.corpus(name, limit=5 if tier == 'quick' else 40, rng=rng)
+        nums = C.rich_corpus(name, 5 if tier == 'quick' else 40, rng, n_synth=8 if tier == 'quick' else 60)
         if not nums:
             continue
         fsets = format_optsets(name, mod, nums[0])
